@@ -5,7 +5,7 @@ import SqlObjVerif.Model.DrvUtil
     `e <dialect,dialect,…> <tree in prefix notation>` answers
     `<rendered tokens per dialect, joined by ' ; '> | <three-valued value of the source tree per row: T F N> | <rows selected by the
     parsed rendering, under three precedence tables: 1/0 per row> | <parse = toT under the three tables>`.
-    Tree syntax: NumE `c<i>` | `k<int>` | `ar <op> l r` | `neg x` | `pos x`;
+    Tree syntax: NumE `c<i>` | `k<int>` | `ar <op> l r` | `neg x` | `pos x` | `b2i <BoolE>`;
     BoolE `cmp <op> l r` | `and& l r` | `or| l r` | `AND n e…` | `OR n e…` | `not~ x` | `NOT x` |
     `in x n item…` | `notin x n item…` (item `N` = None) | `isnull x` | `isnotnull x` | `eqnone x` | `nenone x`. -/
 open SqlObjVerif SqlObjVerif.Expr SqlObjVerif.DrvUtil
@@ -20,6 +20,7 @@ def cmpOp? : String → Option CmpOp
   | "lt" => some .lt | "le" => some .le | "gt" => some .gt | "ge" => some .ge | "eq" => some .eq | "ne" => some .ne
   | _ => none
 
+mutual
 partial def pNum : Parser NumE
   | "ar" :: o :: ts => do
     let o ← arOp? o
@@ -28,21 +29,21 @@ partial def pNum : Parser NumE
     pure (.ar o l r, ts)
   | "neg" :: ts => do let (x, ts) ← pNum ts; pure (.neg x, ts)
   | "pos" :: ts => do let (x, ts) ← pNum ts; pure (.pos x, ts)
+  | "b2i" :: ts => do let (b, ts) ← pBool ts; pure (.b2i b, ts)
   | t :: ts =>
     if t.startsWith "c" then (t.drop 1).toNat?.map fun n => (.col n, ts)
     else if t.startsWith "k" then (t.drop 1).toInt?.map fun i => (.const i, ts)
     else none
   | [] => none
 
-partial def pItems : Nat → Parser (List (Option NumE))
-  | 0, ts => some ([], ts)
-  | n+1, "N" :: ts => do let (l, ts) ← pItems n ts; pure (none :: l, ts)
+partial def pItems : Nat → Parser Items
+  | 0, ts => some (.inil, ts)
+  | n+1, "N" :: ts => do let (l, ts) ← pItems n ts; pure (.inull l, ts)
   | n+1, ts => do
     let (e, ts) ← pNum ts
     let (l, ts) ← pItems n ts
-    pure (some e :: l, ts)
+    pure (.icons e l, ts)
 
-mutual
 partial def pBool : Parser BoolE
   | "cmp" :: o :: ts => do
     let o ← cmpOp? o
